@@ -5,7 +5,7 @@ drv_box ops (layer L3).
 
   box c10 <n> <op> ; <op> ; ...     one history of the application-level machine over objects 0..n-1;
                                      answer: the outcome and a snapshot after every op, joined by " | "
-      ops:  send k.. | fetch k.. | back k T|F | drop k | collect | expire j | dO | dP | close
+      ops:  send k.. | fetch k.. | sendFail k.. | fetchFail k.. | back k T|F | drop k | collect | expire j | dO | dP | close
       snapshot:  <outcome> t=<slot>,.. p=<slot>,.. h=<held ids, sorted> r=<ready results> w=<waiters: o|x expired> o=[..] q=[..]
 -/
 namespace Rpyc.Drv
@@ -16,6 +16,8 @@ def parseIds (toks : List String) : Option (List Nat) := toks.mapM (fun t => par
 def parseAOp : List String → Option AOp
   | "send" :: ks => (parseIds ks).map .send
   | "fetch" :: ks => (parseIds ks).map .fetch
+  | "sendFail" :: ks => (parseIds ks).map .sendFail
+  | "fetchFail" :: ks => (parseIds ks).map .fetchFail
   | ["back", k, "T"] => (parseNatChars k.toList).map (fun k => .back k true)
   | ["back", k, "F"] => (parseNatChars k.toList).map (fun k => .back k false)
   | ["drop", k] => (parseNatChars k.toList).map .drop
@@ -48,9 +50,11 @@ def showMsgP : MsgP → String
   | .back k e => "back " ++ toString k ++ (if e then " T" else " F")
   | .fetch ks => "fetch" ++ String.join (ks.map (fun k => " " ++ toString k))
   | .reply => "reply"
+  | .fetchBad ks => "fetchbad" ++ String.join (ks.map (fun k => " " ++ toString k))
 
 def showOut : Out → String
   | .ok => "ok" | .empty => "empty" | .keyError => "KeyError" | .disabled => "disabled" | .closed => "closed"
+  | .unsendable => "unsendable"
 
 def showAOut : AOut → String
   | .base o => showOut o
